@@ -77,6 +77,39 @@ def run(tier):
             finally:
                 plt.close("all")
     chk.add_phase("directed: circuits with zero and one mode", cases=4)
+    # heralded sub-circuits added in DESCENDING mode order (the later one in front of the earlier group), the earlier one on the host's
+    # last modes with its herald on its own last mode; every back-end and option combination
+    def sub2(hmode, n=0):
+        s_ = lw.Circuit(2); s_.bs(0, 1); s_.ps(hmode, 0.3); s_.herald(n, hmode)
+        return s_
+    ndir = 0
+    for host_n in (2, 3, 4):
+        for h_first, h_second in ((1, 0), (1, 1), (0, 0)):
+            host = lw.Circuit(host_n)
+            host.bs(0, 1)
+            try:
+                host.add(sub2(h_first, 1), host_n - 1)
+                host.add(sub2(h_second), 0)
+                if host_n >= 3:
+                    host.add(sub2(0), 1, group=True)
+                host.U_full
+            except Exception:  # noqa: BLE001
+                continue
+            for t in ("svg", "mpl"):
+                for dl in (False, True):
+                    ndir += 1
+                    chk.count(key="desc-groups%d%d%d%s%s" % (host_n, h_first, h_second, t, dl))
+                    try:
+                        lw.Display(host, display_type=t, display_loss=dl, mode_labels=["q%d" % i for i in range(host.input_modes)])
+                    except Exception as e:  # noqa: BLE001
+                        if not library_raised(e):
+                            raise
+                        chk.violation("valid_call_raised", "Display(%s) of a %d-mode host with heralded sub-circuits added in descending order raised %s: %s"
+                                      % (t, host_n, type(e).__name__, e), script={"directed": "descending heralded additions", "host": host_n, "heralds": [h_first, h_second]},
+                                      sig={"call": "Display", "directed": "descending_groups"})
+                    finally:
+                        plt.close("all")
+    chk.add_phase("directed: heralded sub-circuits added in descending mode order", cases=ndir)
     chk.assumptions = ["TLC 1.8 + CommunityModules", "the specification says nothing about what the picture looks like; only 'drawn or DisplayError' and 'no side effect'",
                        "matplotlib Agg backend"]
     return chk.finish()
